@@ -702,6 +702,149 @@ def _bounded(ctx, scratch):
                 rep.fail(sig, what, {"tokens": tokens, "verbosity": verb[0], "line_class": lcls})
     ctx.done(exhaustive=True, note=rep.note())
 
+    # ---- handlers given as plain callables (CallbackHandler): invoked exactly once, whatever they accept or raise
+    ctx.check("callback_handlers",
+              "commands whose handler is a CallbackHandler around a callable: 4 signatures ((args, io); (args, io, *rest); "
+              "(args, io, command=None); (*everything)) x 7 behaviours (return 0 / 3 / None; raise TypeError / ValueError / a "
+              "library error / TypeError from a nested call): the callable runs exactly once, the status is 0 for a false-y "
+              "result, else non-zero, and an error report names the exception's message")
+    for sig_name, behaviour, fails in callback_cases():
+        ctx.case([sig_name, behaviour], nontrivial=behaviour.startswith("raise"))
+        for sg, what in fails:
+            rep.fail(sg, "%s / %s: %s" % (sig_name, behaviour, what), {"callback": sig_name, "behaviour": behaviour})
+    ctx.done(exhaustive=True, note=rep.note())
+
+    ctx.check("late_listeners",
+              "pre-handle listeners (pass / handle with status 7 / raise) registered after the application and its commands were "
+              "built, on a dispatcher without any pre-handle listener at that time, before the first run or after one: the "
+              "listener takes part in the next run, the handler runs exactly when no listener handled the command")
+    for when, kind, fails in late_listener_cases():
+        ctx.case([when, kind], nontrivial=True)
+        for sg, what in fails:
+            rep.fail(sg, "%s / %s: %s" % (when, kind, what), {"late_listener": when, "kind": kind})
+    ctx.done(exhaustive=True, note=rep.note())
+
+
+def late_listener_cases():
+    """pre-handle listeners registered AFTER the application (and its commands) were built, on a dispatcher that had no
+    pre-handle listener then: they take part in the next run like any other"""
+    from clikit import ConsoleApplication
+    from clikit.api.event import EventDispatcher, PRE_HANDLE
+    from clikit.args import ArgvArgs
+    from clikit.config import DefaultApplicationConfig
+    from clikit.io.input_stream import StringInputStream
+    from clikit.io.output_stream import BufferedOutputStream
+
+    class Cfg(DefaultApplicationConfig):
+        def configure(self):
+            super(Cfg, self).configure()
+            self.set_event_dispatcher(EventDispatcher())  # nothing registered on it yet
+            self.set_terminate_after_run(False)
+
+    for when in ("before-first-run", "after-a-run"):
+        for kind in ("passes", "handles-7", "raises"):
+            calls = []
+            fails = []
+            try:
+                cfg = Cfg("app", "1.0")
+
+                class H(object):
+                    def handle(self, a, io, c):
+                        calls.append("handler")
+                        return 0
+                cfg.create_command("go").set_handler(H())
+                app = ConsoleApplication(cfg)
+
+                def run():
+                    out, err = BufferedOutputStream(), BufferedOutputStream()
+                    return app.run(ArgvArgs(["app", "go"]), StringInputStream(""), out, err), err.fetch() + out.fetch()
+                if when == "after-a-run":
+                    st, _ = run()
+                    if st != 0 or calls != ["handler"]:
+                        fails.append(("late-listener|first-run", "first run: status %r, calls %r" % (st, calls)))
+                    del calls[:]
+
+                def listener(event, name, disp):
+                    calls.append("listener")
+                    if kind == "handles-7":
+                        event.handled(True)
+                        event.set_status_code(7)
+                    elif kind == "raises":
+                        raise ValueError("listener " + MARK)
+                cfg.dispatcher.add_listener(PRE_HANDLE, listener)
+                st, text = run()
+            except BaseException as e:  # the calls under test
+                yield when, kind, [("late-listener|run-raises", "%r" % (e,))]
+                continue
+            want_calls = {"passes": ["listener", "handler"], "handles-7": ["listener"], "raises": ["listener"]}[kind]
+            if calls != want_calls:
+                fails.append(("late-listener|calls", "calls %r, expected %r" % (calls, want_calls)))
+            if kind == "passes" and st != 0 or kind == "handles-7" and st != 7 or kind == "raises" and not (isinstance(st, int) and 1 <= st <= 255):
+                fails.append(("late-listener|status", "status %r for a listener that %s" % (st, kind)))
+            if kind == "raises" and MARK not in text:
+                fails.append(("late-listener|report", "no report of the listener's exception: %r" % (text[-160:],)))
+            yield when, kind, fails
+
+
+def callback_cases():
+    from clikit import ConsoleApplication
+    from clikit.api.exceptions import CliKitException
+    from clikit.args import ArgvArgs
+    from clikit.config import DefaultApplicationConfig
+    from clikit.handler.callback_handler import CallbackHandler
+    from clikit.io.input_stream import StringInputStream
+    from clikit.io.output_stream import BufferedOutputStream
+
+    def nested():
+        return len(5)
+
+    behaviours = {
+        "return-0": lambda: 0, "return-3": lambda: 3, "return-None": lambda: None,
+        "raise-TypeError": lambda: (_ for _ in ()).throw(TypeError("wrong type " + MARK)),
+        "raise-ValueError": lambda: (_ for _ in ()).throw(ValueError("bad value " + MARK)),
+        "raise-library": lambda: (_ for _ in ()).throw(CliKitException("library " + MARK)),
+        "raise-nested-TypeError": nested,
+    }
+    for sig_name in ("two", "two-and-rest", "optional-third", "anything"):
+        for bname, act in behaviours.items():
+            calls = []
+
+            def body(act=act, calls=calls):
+                calls.append(1)
+                return act()
+            if sig_name == "two":
+                cb = lambda args, io: body()  # noqa: E731
+            elif sig_name == "two-and-rest":
+                cb = lambda args, io, *rest: body()  # noqa: E731
+            elif sig_name == "optional-third":
+                cb = lambda args, io, command=None: body()  # noqa: E731
+            else:
+                cb = lambda *everything: body()  # noqa: E731
+            fails = []
+            try:
+                cfg = DefaultApplicationConfig("app", "1.0")
+                cfg.set_terminate_after_run(False)
+                cfg.create_command("go").set_handler(CallbackHandler(cb))
+                out, err = BufferedOutputStream(), BufferedOutputStream()
+                status = ConsoleApplication(cfg).run(ArgvArgs(["app", "go"]), StringInputStream(""), out, err)
+            except BaseException as e:  # the call under test
+                yield sig_name, bname, [("callback|run-raises", "run() raised %r" % (e,))]
+                continue
+            if len(calls) != 1:
+                fails.append(("callback|invocations", "the callable ran %d times" % len(calls)))
+            if bname.startswith("return"):
+                want = {"return-0": 0, "return-3": 3, "return-None": 0}[bname]
+                if status != want:
+                    fails.append(("callback|status", "status %r, expected %r" % (status, want)))
+            else:
+                text = err.fetch() + out.fetch()
+                if not isinstance(status, int) or isinstance(status, bool) or not (1 <= status <= 255):
+                    fails.append(("callback|status", "status %r after an exception" % (status,)))
+                shown = MARK if bname != "raise-nested-TypeError" else "has no len"
+                if shown not in text:
+                    fails.append(("callback|report", "the error report does not show the exception's message: %r" % (text[-200:],)))
+            yield sig_name, bname, fails
+
 
 # ------------------------------------------------------------------------------ replay
 def replay_bounded(check_id, failure):
